@@ -775,13 +775,16 @@ func main() {
 	nSeq := flag.Int("seq", 1500, "API-level sequences over the five formats")
 	nModel := flag.Int("model", 400, "item-level sequences compared with the Coq sequence model")
 	cases := flag.String("cases", "/verif/build/c11/cases_c11", "directory for the model case files")
+	nLong := flag.Int("long", 1, "rounds of the long stream (every format x container family x read mode, lowered MaxDepth)")
+	nDeep := flag.Int("deep", 3, "long runs per format with the default MaxDepth and 1100..2500 records")
 	flag.Parse()
 	r := vh.NewRng(vh.SeedFromEnv())
-	sum := vh.NewSummary("seq: sequences of 1..12 random typed values on ONE Encoder / ONE Decoder, five formats, bytes/io transports on both sides, random encoder option vectors, a random consumer per position (typed, interface{}, Raw, struct lacking fields / short struct-as-array / short array = swallow, Raw and interface{} struct fields); oracles NumBytesRead == prefix sums of the encodings, values, Raw bytes, re-emission, end of stream. model: item-level sequences (cbor, msgpack, simple, binc) with modes naked/raw/skip compared with the Coq sequence model (bytes, extents, NumBytesRead, trees, Raw). distinct_nontrivial = distinct (stream, format, transports, option vector, per-position mode list [+ item kinds], length) tuples of successful evaluations")
+	sum := vh.NewSummary("seq: sequences of 1..12 random typed values on ONE Encoder / ONE Decoder, five formats, bytes/io transports on both sides, random encoder option vectors, a random consumer per position (typed, interface{}, Raw, struct lacking fields / short struct-as-array / short array = swallow, Raw and interface{} struct fields); oracles NumBytesRead == prefix sums of the encodings, values, Raw bytes, re-emission, end of stream. model: item-level sequences (cbor, msgpack, simple, binc) with modes naked/raw/skip compared with the Coq sequence model (bytes, extents, NumBytesRead, trees, Raw). long: per format x container family (16..40-entry map, fixmap, 16+ array, 20-field struct, long strings, nested, ext, time) x read mode (struct lacking the field / Raw / mix), 60..250 records under MaxDepth 16..64 and 1100..2500 records under the default MaxDepth on ONE Encoder / ONE Decoder: no error, NumBytesRead prefix sums, fields, Raw bytes, end of stream. distinct_nontrivial = distinct (stream, format, transports, option vector, per-position mode list [+ item kinds], length) tuples of successful evaluations")
 	rs := r.Fork()
 	for i := 0; i < *nSeq; i++ {
 		runSeq(rs, vh.Formats[i%len(vh.Formats)], i, sum)
 	}
 	modelStream(r.Fork(), *nModel, *cases, sum)
+	longStream(r.Fork(), *nLong, *nDeep, sum)
 	sum.Print()
 }
